@@ -847,11 +847,17 @@ class Scheduler:
             else:
                 weight_tensor_purpose = TensorSubPurpose.Standard
 
+            # A single buffer receives every depth slice, the first of two buffers only every other one
+            first_buffer_size = (
+                encoded_weights.double_buffer_sizes[0]
+                if weight_tensor_purpose == TensorSubPurpose.DoubleBuffer
+                else encoded_weights.max_range_bytes()
+            )
             cost.buffered_weight_tensors = [
                 self.buffer_tensor(
                     encoded_weights,
                     weight_tensor_purpose,
-                    encoded_weights.double_buffer_sizes[0],
+                    first_buffer_size,
                     weight_tensor.name + "_buffer",
                 )
             ]
